@@ -63,10 +63,24 @@ def render_line(x, lines):
     return text
 
 
+def tagform_of(tags):
+    """tags: True / False (both / none) or one of DiagramSem!TagForms."""
+    return {True: "both", False: "none"}.get(tags, tags)
+
+
 def render(lines, tags=True, pre="", post=""):
     body = "\n".join(render_line(x, lines) for x in lines)
-    if tags:
+    tf = tagform_of(tags)
+    if tf == "both":
         return f"{pre}@startuml\n{body}\n@enduml\n{post}"
+    if tf == "start_only":
+        return f"{pre}@startuml\n{body}\n{post}"
+    if tf == "end_only":
+        return f"{pre}{body}\n@enduml\n{post}"
+    if tf == "reversed":
+        return f"{pre}@enduml\n{body}\n@startuml\n{post}"
+    if tf != "none":
+        raise RenderError(f"tag form {tf}")
     return f"{pre}{body}\n{post}"
 
 
@@ -128,7 +142,8 @@ def iter_episode(spec, uid="E", shared=None, events=None):
                 except Exception as e:
                     out, comps, deps = "error", [], []
                     exc = type(e).__name__
-                events.append({"k": "parse", "lines": it["lines"], "tags": it.get("tags", True), "out": out,
+                events.append({"k": "parse", "lines": it["lines"], "tags": it.get("tags", True),
+                               "tagform": tagform_of(it.get("tags", True)), "out": out,
                                "components": comps, "deps": deps, "text": text})
             elif it["op"] == "deval":
                 if it.get("obj") is not None:
